@@ -1,1 +1,206 @@
+import Mathlib.Tactic
 import Model.Srtm
+import Proofs.Lemmas.Arith
+/-!
+List facts: `intRange`, masks over mapped ranges, `min()`/`max()` of a grid, closed forms of the
+tile grids (`np.linspace`), row-major product of index lists, masked assignment.
+-/
+namespace Srtm
+
+/-! ### `np.arange` -/
+
+theorem length_intRange (lo hi : ℤ) : (intRange lo hi).length = (hi + 1 - lo).toNat := by
+  simp [intRange]
+
+theorem getElem_intRange (lo hi : ℤ) (i : ℕ) (h : i < (intRange lo hi).length) :
+    (intRange lo hi)[i] = lo + i := by
+  simp [intRange]
+
+theorem mem_intRange {lo hi k : ℤ} : k ∈ intRange lo hi ↔ lo ≤ k ∧ k ≤ hi := by
+  simp only [intRange, List.mem_map, List.mem_range]
+  constructor
+  · rintro ⟨n, hn, rfl⟩; omega
+  · rintro ⟨h1, h2⟩; exact ⟨(k - lo).toNat, by omega, by omega⟩
+
+theorem pairwise_intRange (lo hi : ℤ) : (intRange lo hi).Pairwise (· < ·) := by
+  unfold intRange
+  exact List.Pairwise.map _ (fun a b h => by omega) List.pairwise_lt_range
+
+theorem intRange_eq_map (lo hi : ℤ) (f : ℤ → ℚ) :
+    (intRange lo hi).map f = (List.range (hi + 1 - lo).toNat).map (fun (i : ℕ) => f (lo + i)) := by
+  simp [intRange, List.map_map, Function.comp_def]
+
+/-- indices `i < n` selected by an interval condition on `off + i`, mapped to `off + i`,
+are the integers of the intersection of the two intervals, ascending -/
+theorem filter_range_map_eq (n : ℕ) (p : ℕ → Bool) (off lo hi : ℤ)
+    (hp : ∀ i, i < n → (p i = true ↔ lo ≤ off + i ∧ off + i ≤ hi)) :
+    ((List.range n).filter p).map (fun (i : ℕ) => off + (i : ℤ)) =
+      intRange (max lo off) (min hi (off + n - 1)) := by
+  apply List.Pairwise.eq_of_mem_iff (r := (· < ·))
+  · exact List.Pairwise.map _ (fun a b h => by omega) ((List.pairwise_lt_range).filter _)
+  · exact pairwise_intRange _ _
+  · intro k
+    simp only [List.mem_map, List.mem_filter, List.mem_range, mem_intRange]
+    constructor
+    · rintro ⟨i, ⟨hi1, hi2⟩, rfl⟩
+      have := (hp i hi1).mp hi2
+      omega
+    · rintro ⟨h1, h2⟩
+      refine ⟨(k - off).toNat, ⟨by omega, ?_⟩, by omega⟩
+      apply (hp _ (by omega)).mpr; omega
+
+/-! ### masks -/
+
+theorem zipIdx_map_range (n : ℕ) (f : ℕ → ℚ) :
+    ((List.range n).map f).zipIdx = (List.range n).map (fun i => (f i, i)) := by
+  apply List.ext_getElem <;> simp
+
+theorem selIdx_map_range (lo hi : ℚ) (n : ℕ) (f : ℕ → ℚ) :
+    selIdx lo hi ((List.range n).map f) =
+      (List.range n).filter (fun i => decide (lo ≤ f i) && decide (f i < hi)) := by
+  unfold selIdx
+  rw [zipIdx_map_range, List.filter_map, List.map_map]
+  simp [Function.comp_def]
+
+/-! ### `.min()` / `.max()` -/
+
+theorem foldl_min_spec (xs : List ℚ) :
+    ∀ x, xs.foldl min x ∈ x :: xs ∧ ∀ y ∈ x :: xs, xs.foldl min x ≤ y := by
+  induction xs with
+  | nil => intro x; simp
+  | cons a as ih =>
+    intro x
+    obtain ⟨h1, h2⟩ := ih (min x a)
+    simp only [List.foldl_cons]
+    constructor
+    · rcases List.mem_cons.mp h1 with h | h
+      · rw [h]; rcases min_choice x a with e | e <;> rw [e] <;> simp
+      · exact List.mem_cons_of_mem _ (List.mem_cons_of_mem _ h)
+    · intro y hy
+      have hm := h2 (min x a) List.mem_cons_self
+      rcases List.mem_cons.mp hy with rfl | hy
+      · exact le_trans hm (min_le_left _ _)
+      · rcases List.mem_cons.mp hy with rfl | hy
+        · exact le_trans hm (min_le_right _ _)
+        · exact h2 y (List.mem_cons_of_mem _ hy)
+
+theorem foldl_max_spec (xs : List ℚ) :
+    ∀ x, xs.foldl max x ∈ x :: xs ∧ ∀ y ∈ x :: xs, y ≤ xs.foldl max x := by
+  induction xs with
+  | nil => intro x; simp
+  | cons a as ih =>
+    intro x
+    obtain ⟨h1, h2⟩ := ih (max x a)
+    simp only [List.foldl_cons]
+    constructor
+    · rcases List.mem_cons.mp h1 with h | h
+      · rw [h]; rcases max_choice x a with e | e <;> rw [e] <;> simp
+      · exact List.mem_cons_of_mem _ (List.mem_cons_of_mem _ h)
+    · intro y hy
+      have hm := h2 (max x a) List.mem_cons_self
+      rcases List.mem_cons.mp hy with rfl | hy
+      · exact le_trans (le_max_left _ _) hm
+      · rcases List.mem_cons.mp hy with rfl | hy
+        · exact le_trans (le_max_right _ _) hm
+        · exact h2 y (List.mem_cons_of_mem _ hy)
+
+theorem listMin_eq {l : List ℚ} {m : ℚ} (hm : m ∈ l) (hle : ∀ x ∈ l, m ≤ x) : listMin l = some m := by
+  cases l with
+  | nil => simp at hm
+  | cons a as =>
+    obtain ⟨h1, h2⟩ := foldl_min_spec as a
+    simp only [listMin, Option.some.injEq]
+    exact le_antisymm (h2 m hm) (hle _ h1)
+
+theorem listMax_eq {l : List ℚ} {m : ℚ} (hm : m ∈ l) (hle : ∀ x ∈ l, x ≤ m) : listMax l = some m := by
+  cases l with
+  | nil => simp at hm
+  | cons a as =>
+    obtain ⟨h1, h2⟩ := foldl_max_spec as a
+    simp only [listMax, Option.some.injEq]
+    exact le_antisymm (hle _ h1) (h2 m hm)
+
+/-! ### tile grids (`np.linspace`) in closed form -/
+
+theorem tileLats_eq (t : Tile) (h : t.latMax - t.latMin = 50) :
+    tileLats t = (List.range tileH).map (fun (r : ℕ) => (t.latMax : ℚ) - 1 / 240 - (r : ℚ) / 120) := by
+  have hq : (t.latMin : ℚ) = t.latMax - 50 := by
+    have : ((t.latMax - t.latMin : ℤ) : ℚ) = 50 := by rw [h]; norm_num
+    push_cast at this; linarith
+  unfold tileLats
+  apply List.ext_getElem
+  · simp
+  · intro i h1 h2
+    have hi : i < 6000 := by simpa [tileH] using h2
+    rw [List.getElem_reverse]
+    simp only [List.getElem_map, List.getElem_range, List.length_map, List.length_range, tileH]
+    unfold linspace
+    rw [dlat_eq, hq]
+    have : ((6000 - 1 - i : ℕ) : ℚ) = 5999 - (i : ℚ) := by
+      rw [Nat.cast_sub (by omega)]; norm_num
+    rw [this]
+    push_cast
+    ring
+
+theorem tileLons_eq (t : Tile) (h : t.lonMax - t.lonMin = 40) :
+    tileLons t = (List.range tileW).map (fun (c : ℕ) => (t.lonMin : ℚ) + 1 / 240 + (c : ℚ) / 120) := by
+  have hq : (t.lonMax : ℚ) = t.lonMin + 40 := by
+    have : ((t.lonMax - t.lonMin : ℤ) : ℚ) = 40 := by rw [h]; norm_num
+    push_cast at this; linarith
+  unfold tileLons
+  apply List.ext_getElem
+  · simp
+  · intro i h1 h2
+    simp only [List.getElem_map, List.getElem_range, tileW]
+    unfold linspace
+    rw [dlon_eq, hq]
+    push_cast
+    ring
+
+/-! ### row-major product of index lists -/
+
+theorem cells_map {α β : Type} (rows cols : List ℕ) (fR : ℕ → α) (fC : ℕ → β) :
+    (cells rows cols).map (fun p => (fR p.1, fC p.2)) =
+      (rows.map fR).flatMap (fun R => (cols.map fC).map (fun C => (R, C))) := by
+  unfold cells
+  simp [List.map_flatMap, List.flatMap_map, List.map_map, Function.comp_def]
+
+theorem mem_cells {rows cols : List ℕ} {p : ℕ × ℕ} : p ∈ cells rows cols ↔ p.1 ∈ rows ∧ p.2 ∈ cols := by
+  unfold cells
+  simp only [List.mem_flatMap, List.mem_map]
+  constructor
+  · rintro ⟨i, hi, j, hj, rfl⟩; exact ⟨hi, hj⟩
+  · rintro ⟨h1, h2⟩; exact ⟨p.1, h1, p.2, h2, rfl⟩
+
+/-! ### masked assignment -/
+
+/-- sequential `a[pos] = v` writes at pairwise distinct positions: every write survives,
+everything else is untouched -/
+theorem foldl_set_spec (ws : List (ℕ × ℤ)) (hn : (ws.map (·.1)).Nodup) :
+    ∀ E : Array ℤ,
+      let E' := ws.foldl (fun a w => a.setIfInBounds w.1 w.2) E
+      E'.size = E.size ∧
+      (∀ w ∈ ws, ∀ h : w.1 < E'.size, E'[w.1] = w.2) ∧
+      (∀ q, q ∉ ws.map (·.1) → ∀ h : q < E'.size, ∀ h' : q < E.size, E'[q] = E[q]) := by
+  induction ws with
+  | nil => intro E; simp
+  | cons w ws ih =>
+    intro E
+    simp only [List.map_cons, List.nodup_cons] at hn
+    obtain ⟨hs, hw, hq⟩ := ih hn.2 (E.setIfInBounds w.1 w.2)
+    simp only [List.foldl_cons]
+    refine ⟨by simpa using hs, ?_, ?_⟩
+    · intro w' hw' h
+      rcases List.mem_cons.mp hw' with rfl | hw'
+      · have h' : w'.1 < (E.setIfInBounds w'.1 w'.2).size := by simpa [hs] using h
+        rw [hq w'.1 hn.1 h h']
+        simp
+      · exact hw w' hw' h
+    · intro q hq' h h'
+      simp only [List.map_cons, List.mem_cons, not_or] at hq'
+      have h'' : q < (E.setIfInBounds w.1 w.2).size := by simpa using h'
+      rw [hq q hq'.2 h h'']
+      rw [Array.getElem_setIfInBounds]
+      rw [if_neg (fun e => hq'.1 e.symm)]
+
+end Srtm
